@@ -20,7 +20,10 @@ from collections import namedtuple
 from ..harness import Section
 from . import _entry_labelgen as G
 
-DIALECTS = ["PVL", "ODL", "PDS3", "Omni", "Omni-loads-kwargs"]
+DIALECTS = ["PVL", "ODL", "PDS3", "Omni", "Omni-loads-kwargs",
+            # both grammar= and a customised decoder= whose own grammar is a distinct object
+            "PVL-grammar+decoder", "ODL-grammar+decoder", "PDS3-grammar+decoder", "Omni-grammar+decoder",
+            "Omni-loads-grammar+decoder"]
 REAL_CLASSES = ["float", "Decimal", "RecReal"]
 QUANTITY_CLASSES = ["Quantity", "MyQ", "QT"]
 CONTAINERS = ["default", "subclass", "new"]
@@ -102,7 +105,7 @@ class Env:
         self.real_cls = real_class(real)
         self.qcls = quantity_class(quantity)
         self.modcls, self.grpcls, self.objcls = container_classes(containers)
-        self.set_type = set if dialect in ("ODL", "PDS3") else frozenset
+        self.set_type = set if dialect.startswith(("ODL", "PDS3")) else frozenset
         self.notes = []
         self.explicit_decoder = False      # Omni-loads-kwargs only: pass decoder=OmniDecoder() even for defaults
 
@@ -138,6 +141,16 @@ class Env:
             if default and not self.explicit_decoder:
                 return pvl.loads(text)
             return pvl.loads(text, decoder=OmniDecoder(**dkw), **ckw)
+        elif d == "PVL-grammar+decoder":
+            p = PVLParser(grammar=PVLGrammar(), decoder=PVLDecoder(**dkw), **ckw)
+        elif d == "ODL-grammar+decoder":
+            p = ODLParser(grammar=ODLGrammar(), decoder=ODLDecoder(**dkw), **ckw)
+        elif d == "PDS3-grammar+decoder":
+            p = ODLParser(grammar=PDSGrammar(), decoder=PDSLabelDecoder(**dkw), **ckw)
+        elif d == "Omni-grammar+decoder":
+            p = OmniParser(grammar=OmniGrammar(), decoder=OmniDecoder(**dkw), **ckw)
+        elif d == "Omni-loads-grammar+decoder":
+            return pvl.loads(text, grammar=OmniGrammar(), decoder=OmniDecoder(**dkw), **ckw)
         else:
             raise ValueError(d)
         return pvl.loads(text, parser=p)
@@ -418,9 +431,8 @@ def _blame(denv, text, real, quantity, containers, dres):
 
 
 def _short(ctx):
-    """top/group/object/seq -> innermost two structure kinds (keeps keys few)"""
-    parts = ctx.split("/")
-    return "/".join(parts[-2:]) if len(parts) > 2 else ctx
+    """top/group/object/seq -> the innermost structure kind (keeps the number of keys small)"""
+    return ctx.split("/")[-1]
 
 
 def _first_diff(a, b, path="$"):
@@ -541,8 +553,9 @@ def sections(ctx):
     s = Section("type-hooks", "bounded", bounded=True,
                 rule="hand-written minimal labels (one per context) + seeded generated labels in three profiles "
                      "(ODL subset, strict PVL, permissive) with many-digit reals, ints, based ints, quantities on "
-                     "reals/ints/sequences, nested sequences/sets, nested groups/objects, duplicates, comments; x 5 "
-                     "dialect routes x 27 substitute combinations; distinct = (label, dialect, combination); the "
+                     "reals/ints/sequences, nested sequences/sets, nested groups/objects, duplicates, comments; x 10 "
+                     "dialect routes (parser+decoder sharing one grammar; loads(decoder=...); grammar= plus a "
+                     "customised decoder= with its own grammar object) x 27 substitute combinations; distinct = (label, dialect, combination); the "
                      "expected types/values come from the tree the text was written from",
                 bounds={"labels": len(labels), "dialects": DIALECTS, "real_cls": REAL_CLASSES,
                         "quantity_cls": QUANTITY_CLASSES, "containers": CONTAINERS})
